@@ -335,6 +335,7 @@ func report(w *World, pc *PropConfig, tier string, seed int, record, partial boo
 			"recorded_obligations_not_generated": len(missing),
 			"extraction_drops": []string{"DebugRef instructions and non-//@ comments", "bodies of callees (replaced by contracts)", "termination", "scheduler (go statements)", "memory exhaustion", "fields of struct types never read by a function under contract or a spec (relevance pruning)"},
 			"load_s": round3(tLoad), "translate_s": round3(tTrans),
+			"nondeterminism_sources_audit": auditInfo,
 		},
 		"assumptions": assum,
 		"wall_s":      round3(wall),
